@@ -136,6 +136,24 @@ theorem justice_lease_to_remote_invalid (r : Revoked) (cltv : Nat) (payHash : It
       run, leaseToRemoteConfirmed, runOps, step, exec, opCheckSigVerify, opCltv,
       pk, n, sigCheck, accepts, hc]
 
+/-- **justice_witness_valid, simple-taproot channels** (staging and final
+    scripts): the revocation leaf of to_local and the CSV-1 leaf of the own
+    to_remote output accept the single Schnorr signature under the key the sign
+    descriptor names; HTLC and second-level outputs are key-path spends whose
+    internal key is exactly the (double-tweaked) revocation key the descriptor
+    signs with.  (Control block / tap tweak arithmetic: real engine only.) -/
+theorem justice_taproot_valid (r : Revoked) (k : OutKind) (ht : r.ct.taproot = true) :
+    r.tapJusticeValid k = true := by
+  obtain ⟨⟨tweakless, anchors, lease, taproot, tfinal⟩, victim, vinit, csv, lexp⟩ := r
+  simp only at ht
+  subst ht
+  cases k <;> cases tweakless <;> cases tfinal <;>
+    simp [Revoked.tapJusticeValid, Revoked.tapScript, Revoked.tapWitness, Revoked.tapCtx,
+      Revoked.sequence, Revoked.signDesc, SignDesc.signer, Revoked.revocationKey,
+      Revoked.toLocalKey, Revoked.toRemoteKey, Revoked.cheater, tapRevokeLeaf, tapDelayLeaf,
+      run, runOps, step, exec, opDrop, opCheckSig, opCheckSigVerify, opCsv, pk, n, sigCheck,
+      accepts, truthy, csvOk_one]
+
 /-- The tweak named by the sign descriptor matters: a signature under any key
     other than the (double-tweaked) revocation key does not satisfy the
     revocation branch of the to-local / second-level script. -/
